@@ -1,5 +1,5 @@
 (* C03 driver: one case per input line, one result line per case.
-   argv: cases file, impl output file or "-", variant ("repaired" | "defective").
+   argv: cases file, impl output file or "-", variant ("repaired" | "defective" | "noteardown" | "heldanswer").
    pppoe <pool> <ev>...   events:  o:<i>  f:<i>:<proto>:<kind>  a:<k>:<acc|accip|rej|err>
                                    t:<i>:<lcp|ipcp|ip6cp|chap>  x:<i>  d:<i>  v:ok
      -> per step  <outs>|<slot status>,...|<free>   joined by " ; "
@@ -55,6 +55,7 @@ let show_out (o : out) : string option =
   | OIp6cp c -> Some ("V" ^ string_of_int (n c)) | ORa -> Some "RA" | ONa -> Some "NA"
   | OReq k -> Some ("Q" ^ string_of_int (n k)) | OLifeA -> Some "lifeA" | OLifeR -> Some "lifeR"
   | ODh6Adv -> Some "ADV6" | ODh6Reply -> Some "REPLY6" | OSb6Add -> Some "sb6+"
+  | OSb6Del -> Some "sb6-" | OSbPdAdd -> Some "sbpd+" | OSbPdDel -> Some "sbpd-"
   | OSbAdd -> Some "sbadd" | OSbDel -> Some "sbdel" | OProg -> Some "prog"
   | GAlloc | GLcpDown | GLcpUp -> None
 let show_phase = function PDead -> "D" | PEstablish -> "E" | PAuth -> "A" | PNetwork -> "N" | POpen -> "O" | PTerminate -> "T"
@@ -66,14 +67,31 @@ let show_sess (s : sess) : string =
 let run_pppoe (rt : bool) (rep : vr) (flav : string) (toks : string list) : string =
   match toks with
   | pool :: evs ->
-    let st = ref (init (nat_of_int (int_of_string pool))) in
+    (* pool sizes: <ipv4> or <ipv4>/<ia_na>/<pd> *)
+    let st = ref (match String.split_on_char '/' pool with
+                  | [a; b; c] -> init3 (nat_of_int (int_of_string a)) (nat_of_int (int_of_string b)) (nat_of_int (int_of_string c))
+                  | _ -> init (nat_of_int (int_of_string pool))) in
     let mons = Array.make 3 (Some mon0) in
     let mon = ref "ok" in
     let steps = List.map (fun tok ->
       (* R:<i>:<proto>:<kind>&a:<k>:<akind> — the frame is processed under the session lock while the answer, already
          matched by its pending id, waits for that lock.  handleAAAResponse re-checks the pending id under the lock,
          so this is the frame and then the answer: the two model steps, outputs concatenated. *)
-      let evl = (if String.length tok > 2 && String.sub tok 0 2 = "R:" then
+      let evl = (if String.length tok > 2 && String.sub tok 0 2 = "S:" then
+                   (* S:<event>&a:<k>:<akind> — the answer is held after it was matched (before it asks for the session
+                      lock) while the event is handled completely: the event, then the answer *)
+                   (match String.split_on_char '&' (String.sub tok 2 (String.length tok - 2)) with
+                    | [a; b] ->
+                      (match event_of a, event_of b with
+                       | Some x, Some (EvAAA (k, ak)) ->
+                         (* the match (first session whose pending id is k) is made in the state before the event; no
+                            match: the answer is dropped there and then *)
+                         (match find_idx (pend_matches rep k) !st.sl O with
+                          | Some i -> Some [x; EvAAAHeld (i, k, ak)]
+                          | None -> Some [x])
+                       | _ -> None)
+                    | _ -> None)
+                 else if String.length tok > 2 && String.sub tok 0 2 = "R:" then
                    (match String.split_on_char '&' (String.sub tok 2 (String.length tok - 2)) with
                     | [a; b] -> (match event_of ("f:" ^ a), event_of b with Some x, Some y -> Some [x; y] | _ -> None)
                     | _ -> None)
@@ -81,22 +99,32 @@ let run_pppoe (rt : bool) (rep : vr) (flav : string) (toks : string list) : stri
       match evl with
       | None -> "badev:" ^ tok
       | Some el ->
+        let stepviol = ref 99 in
+        let viol i = if i < !stepviol then stepviol := i in
+        let before = !st.sl in
         let outs = List.concat_map (fun e ->
           let (st', outs) = step rep !st e in
           st := st';
           Array.iteri (fun i m -> match m with
             | None -> ()
             | Some m -> mons.(i) <- mon_run (nat_of_int i) [(e, outs)] m;
-              if mons.(i) = None && !mon = "ok" then mon := "VIOLATION@" ^ string_of_int i) mons;
-          (* retained state: a session that is in the indexes but not in Network/Open (its link is unauthenticated)
-             must not hold a pool lease — the lease and the dataplane session belong to an authenticated link *)
-          List.iteri (fun i (s : sess) ->
-            if s.live && not (in_net s.ph) && s.alloc_pool && !mon = "ok" then mon := "VIOLATION@" ^ string_of_int i) st'.sl;
+              if mons.(i) = None then viol i) mons;
           outs) el in
+        (* retained state: a session that is in the indexes but not in Network/Open (its link is unauthenticated)
+           must not hold a lease of any family — lease and dataplane session belong to an authenticated link *)
+        List.iteri (fun i (s : sess) ->
+          if s.live && not (in_net s.ph) && (s.alloc_pool || holds6 s) then viol i) !st.sl;
+        (* teardown: a session that left the indexes during this step owns nothing in the registry any more *)
+        List.iteri (fun i (s : sess) ->
+          match List.nth_opt before i with
+          | Some (b : sess) when b.live && b.gen = s.gen && not s.live && leaks s -> viol i
+          | _ -> ()) !st.sl;
+        if !mon = "ok" && !stepviol < 99 then mon := "VIOLATION@" ^ string_of_int !stepviol;
         let os = List.filter_map (fun (i, o) -> match show_out o with
           | None -> None
           | Some s -> Some ((if int_of_nat i >= 3 then "?" else string_of_int (int_of_nat i)) ^ s)) outs in
-        String.concat "," os ^ "|" ^ String.concat "," (List.map show_sess !st.sl) ^ "|" ^ string_of_int (int_of_nat !st.free)) evs in
+        String.concat "," os ^ "|" ^ String.concat "," (List.map show_sess !st.sl) ^ "|" ^ string_of_int (int_of_nat !st.free)
+        ^ "/" ^ string_of_int (int_of_nat (fst !st.free6)) ^ "/" ^ string_of_int (int_of_nat (snd !st.free6))) evs in
     String.concat " ; " (("fsm=" ^ flav) :: steps) ^ " ; MON:" ^ !mon
   | [] -> "badcase"
 (* ---------------- IPoE ----------------
@@ -168,9 +196,9 @@ let run_ipoe (rep : bool) (implline : string) (toks : string list) : string =
         let os = dedup os in
         String.concat "," os ^ "|" ^ String.concat "," (List.map show_islot !st.isl) ^ "|" ^
         string_of_int (List.length !st.p4.pfree) ^ "/" ^ string_of_int (List.length !st.p6.pfree) in
-    (* Outside the modelled domain: when ResolveV6 fails (the context's IA_NA address was taken by another session
-       after a release, or the pool is exhausted) the local DHCPv6 provider allocates on its own, bypassing the
-       registry (recorded by C02, notes/C02.md).  The model marks that step EXH6 and stops predicting outputs and state.
+    (* Outside the modelled domain: the IA_NA pool is exhausted (see below; the generator's default of 16 addresses for
+       at most three subscribers never gets there, the cases with 0 / 1 / 2 addresses do).  The model stops predicting
+       outputs and state.
        The gap is bounded at the property level: from there on the EXTRACTED COQ MONITOR (imon_in / imon_outs) is run on
        the implementation's own outputs for the rest of the case — an answer counts for the slot's latest attempt seen
        in the trace — and its verdict, not the harness's, ends the line.  The step texts are echoed. *)
@@ -180,7 +208,7 @@ let run_ipoe (rep : bool) (implline : string) (toks : string list) : string =
     let maxgen = Array.make 3 0 in
     let iout_of_token (t : string) : iout option =
       (match t with
-       | "Q" -> Some IQ | "OFFER" -> Some IOffer | "ACK" -> Some IAck | "ADV" -> Some IAdv | "REPLY" -> Some IReply
+       | "Q" -> Some IQ | "OFFER" -> Some IOffer | "ACK" -> Some IAck | "ADV" -> Some IAdv | "REPLY" | "REPLYPD" -> Some IReply
        | "RREPLY" -> Some IRelReply | "sbadd" -> Some ISbAdd | "sbdel" -> Some ISbDel | "sb4+" -> Some (ISb4 true)
        | "sb4-" -> Some (ISb4 false) | "sb6+" | "sbpd+" -> Some (ISb6 true) | "sb6-" | "sbpd-" -> Some (ISb6 false)
        | "lifeA" -> Some ILifeA | "lifeR" -> Some ILifeR | "prog" -> Some IProg | _ -> None) in
@@ -215,6 +243,10 @@ let run_ipoe (rep : bool) (implline : string) (toks : string list) : string =
       let evl = (if String.length tok > 2 && String.sub tok 0 2 = "P:" then
                    List.filter_map ievent_of (String.split_on_char '&' (String.sub tok 2 (String.length tok - 2)))
                  else List.filter_map ievent_of [tok]) in
+      (* the IA_NA pool is exhausted: ResolveV6 resolves a prefix only and the provider answers with the prefix alone
+         (ADVERTISE / REPLY without IA_NA, prefix route, session bound); the model has no prefix-only binding (IA_PD is a
+         token derived next to the address, above) — from here on the implementation's trace is judged as described *)
+      if not !giveup && !st.p6.pfree = [] then giveup := true;
       if !giveup then (judge_impl evl; echo ()) else
       let has_exh l = List.exists (fun (_, o) -> o = IExh6) l in
       let show outs = if has_exh outs then (giveup := true; echo ()) else
@@ -245,7 +277,11 @@ let flavour_of (impl : string) : string =
 let () =
   let lines = read_lines Sys.argv.(1) in
   let impl = if Array.length Sys.argv > 2 && Sys.argv.(2) <> "-" then Array.of_list (read_lines Sys.argv.(2)) else [||] in
-  let rep = (Array.length Sys.argv <= 3) || Sys.argv.(3) <> "defective" in
+  (* PPPoE variants: repaired = both open findings fixed; defective = /repo HEAD (neither); noteardown / heldanswer =
+     only pppoe-reneg-keeps-dataplane / only pppoe-aaa-answer-after-teardown still open *)
+  let variant = if Array.length Sys.argv > 3 then Sys.argv.(3) else "repaired" in
+  let rep = variant <> "defective" in
+  let td = (variant = "repaired" || variant = "heldanswer") and hl = (variant = "repaired" || variant = "noteardown") in
   List.iteri (fun idx line ->
     let il = if idx < Array.length impl then impl.(idx) else "" in
     match tokens line with
@@ -253,7 +289,7 @@ let () =
     | "pppoe" :: rest ->
       let flav = flavour_of il in
       if flav <> "cur" && flav <> "rfc" then print_endline ("badflavour:" ^ flav) else
-      print_endline (try run_pppoe rep { vrep = true; vrfc = (flav = "rfc"); vtd = rep } flav rest with e -> "modelerr:" ^ Printexc.to_string e)
+      print_endline (try run_pppoe rep { vrep = true; vrfc = (flav = "rfc"); vtd = td; vhl = hl } flav rest with e -> "modelerr:" ^ Printexc.to_string e)
     | ["radius"; fb; srv; at] ->
       let fb = (fb = "1") in
       let srv = (match srv with "accept" -> SrvAccept | "reject" -> SrvReject | "other" -> SrvOtherCode | _ -> SrvNoAnswer) in
